@@ -22,7 +22,7 @@ RULE = ("one case = (project state, subcommand + flags, working directory); non-
 TRUSTED = ["fake kernel contract (DESIGN 4) for task children; real tar, tmpfs, sqlite", "reference run from the project root"]
 ASSUMPTIONS = ["one invocation at a time", "the clock is the same for both runs"]
 
-STATES = ("fresh", "after-successful-run", "after-failed-run", "after-two-failed-runs", "eighteen-recorded-versions")
+STATES = ("fresh", "after-successful-run", "after-failed-run", "after-two-failed-runs", "eighteen-recorded-versions", "leftover-colliding-with-the-archive")
 # "vendor" is a nested repository (has its own .git) inside the project; the last two are leftover output
 # directories of failed runs (they exist only in the corresponding states; gc deletes them while running there)
 CWDS = ("pkg", "docs", "cond-out", "cond-out/pkg", "pkg/sub", "pkg/sub/a/b/c/d/e/f", "vendor", "vendor/lib", "cond-out/pkg/t.task.500", "cond-out/pkg/t.task.501")
@@ -88,6 +88,12 @@ def build(state, base):
     (proj.root / "vendor" / "lib").mkdir()
     proj.out.mkdir()
     (proj.out / "pkg").mkdir()
+    if state == "leftover-colliding-with-the-archive":
+        # what a killed restore of the other archive leaves: the directory of its LAST version, not recorded
+        d_ = proj.out / "pkg" / "t.task.78"
+        d_.mkdir()
+        (d_ / "partial.txt").write_text("copied before the kill")
+        return proj
     if state == "eighteen-recorded-versions":
         for n in range(18):
             proj.add_version("//pkg:t", 300 + n)
@@ -105,6 +111,7 @@ def make_other_archive(base):
     src = build("fresh", base)
     try:
         src.add_version("//pkg:t", 77)
+        src.add_version("//pkg:t", 78)
         arch = os.path.join(base, "other-%s.tar.gz" % os.path.basename(str(src.root)))
         r = hrun.invoke_argv(["archive", "-o", arch], str(src.root), fakeos.Kernel(fakeos.Sched()))
         assert r.status == 0, (r.status, r.err)
@@ -184,7 +191,9 @@ def make():
                 if via_link is not None:
                     os.unlink(alias)
             for r in (rres, gres):
-                if isinstance(r.status, str):
+                # (a restore that runs into an unrecorded directory of the same name stops with FileExistsError on the
+                # unchanged tree too: not this property's subject - only its effects are compared)
+                if isinstance(r.status, str) and not (state == "leftover-colliding-with-the-archive" and argv[0] == "restore"):
                     g.require(False, "cwd:crash:%s:%s" % (r.status[4:], argv[0]), "%s; %s" % (r.exc, D))
             for key in ("status", "error", "locations", "cond_out", "rows", "spawned", "archive_written"):
                 g.require(ref[key] == got[key], "cwd:differs:%s:%s" % (argv[0], key),
@@ -207,7 +216,7 @@ def _short(x):
 
 def spaces(tier):
     return [Space("commands-x-directories", make(),
-                  "%d command lines x 5 project states (the last one with 18 recorded versions) x 10 directories inside the project (one of them 8 levels deep) (package dir, dir without COND, cond-out, "
+                  "%d command lines x 6 project states (one with 18 recorded versions, one with the leftover of a killed restore) x 10 directories inside the project (one of them 8 levels deep) (package dir, dir without COND, cond-out, "
                   "package dir under cond-out, nested sub-directory, a nested git repository and a directory below it, leftover "
                   "output directories of failed runs) + outside the project" % len(COMMANDS), depth=3,
                   goals=["command outside any project", "a location is reported from a sub-directory", "archive/restore from a sub-directory succeeds"],
